@@ -195,3 +195,6 @@ _extend('C14', 'ADDED (units D-apply, U-apply): DELETE and UPDATE record one cha
 
 _extend('C10', 'ADDED (unit N-track): within a multi-row INSERT the UNIQUE key of constraint c of every validated row is filed under slot c for the duplicate check of the later rows (a NULL-holding key files nothing and shifts nothing). '
         'Since fix 3b5d38c3 a multi-row UPDATE tracks the keys it hands out, and INSERT .. ON DUPLICATE KEY UPDATE runs the checks of UPDATE on the row it rewrites (SQL reproductions; executor glue outside the units).')
+
+_extend('C14', 'ADDED (units K-undo revised, F-cascade): the undo of a change works on rows in their STORED form (the change log holds rows as handed in; Table::remove_row / insert normalize); ON DELETE CASCADE deletes and records '
+        'every referencing child row with its multiplicity. Self-referencing foreign keys (referential actions changing the very table a DELETE / UPDATE is being applied to) are NOT covered: observed defect, DESIGN 9b.')
